@@ -535,6 +535,19 @@ def run(rep, tier, seed):
     jobs = [(seed * 7919 + i, rnd.randint(12, 20), nst) for i in range(ntr)]
     traces = [t for chunk in parallel(w_histories, jobs) for t in chunk]
     traces += [record_wide(seed * 13 + i) for i in range(2 if tier == "quick" else 12)]
+    # a replace WITH deletion whose old child is no longer registered (it was replaced away before and attached again): the
+    # call fails - and a failing edit leaves the tree as it was
+    for deep in (False, True):
+        w_ = World()
+        for _k in range(6):
+            w_.new("a")
+        fields_ = ("name", "kids", "ns", "content", "tail", "prefix", "attrs", "extras", "store")
+        tr_ = {"init": w_.pi(fields_), "events": []}
+        steps_ = [("add_child", [1, 2, -1])] + ([("add_child", [2, 6, -1])] if deep else []) + [("replace_child", [1, 2, 3, True]), ("add_child", [4, 2, -1]), ("replace_child", [4, 2, 5, True])]
+        for nm_, ar_ in steps_:
+            ok_, ret_, exc_ = w_.apply(nm_, ar_)
+            tr_["events"].append({"op": nm_, "args": ar_, "ok": ok_, "ret": ret_ if isinstance(ret_, int) else 0, "post": w_.pi(fields_)})
+        traces.append(tr_)
     for tr in traces:
         for e in tr["events"]:
             if e.get("parent_link_bad"):
